@@ -32,6 +32,19 @@ def stepC20 (fields : List String) : Option String :=
       let nn := Spec.noNoticeInside h
       pure (encodeBool (y.wf && wfl && nn) ++ "|" ++ encodeBool old ++ "|" ++ encodeBool wfl ++ "|" ++ encodeBool nn ++ "|"
         ++ encodeText line)
+  | ["c20mergehyp", keys, yforms, hs] => do
+      -- the hypotheses of C20_merge_lines (every notice `Notice.ok`) for the notices (prefix key, year form, holder)_i, and
+      -- the input lines the theorem speaks about
+      let hs ← decodeList hs
+      let ks := keys.splitOn ";"
+      let ys ← (yforms.splitOn ";").mapM decYearForm
+      if ks.length != hs.length || ys.length != hs.length then none else
+      let ns ← (ks.zip (ys.zip hs)).mapM fun (k, y, h) => do
+        let kv ← Generated.copyrightPrefixes.find? (·.1 == k)
+        let shape ← Spec.prefixShapes.find? (·.1 == kv.2)
+        pure ({ shape := shape, year := y, holder := h } : Spec.Notice)
+      let ok := ns.all fun n => n.year.wf && Spec.WFHolderL Generated.endRe n.holder && Spec.noNoticeInside n.holder
+      pure (encodeBool ok ++ "|" ++ encodeList (ns.map Spec.Notice.line))
   | _ => none
 
 end Ops
